@@ -40,14 +40,16 @@ HAZARDS = [
     # constant propagation
     'call_out', 'call_inout', 'loop_carried', 'accumulator', 'accumulator_varbound', 'cond_assign_in_loop',
     'save_init', 'while_literal_counter', 'select_assign', 'associate_alias', 'zero_trip_const',
-    'zero_trip_inner', 'exit_in_loop', 'cycle_in_loop', 'real_kind_fold', 'internal_modifies_host',
+    'zero_trip_inner', 'exit_in_loop', 'cycle_in_loop', 'real_kind_fold', 'internal_present',
     'stale_second_pass', 'mixed_case_redef', 'member_basename', 'pointer_alias', 'neg_step_unroll',
     'while_zero_trip_assign', 'param_array_2d', 'nested_loop_prologue_outer', 'int_div_neg', 'array_const_elems',
+    'simp_int_quot_sum', 'simp_int_quot_product', 'simp_int_quot_like_terms', 'simp_real_div_literal',
+    'simp_real_coeff_div_int', 'simp_real_cancel_to_int', 'simp_neg_product',
     # dead code
-    'named_if_exit', 'select_literal_range', 'select_logical',
+    'simp_cond_int_quot', 'simp_cond_real_literal', 'named_if_exit', 'select_literal_range', 'select_logical',
     # unused vars / args
     'local_kind_param', 'param_in_initializer', 'dummy_only_in_print', 'local_only_in_internal',
-    'dummy_only_in_internal', 'optional_present', 'dummy_only_in_dimension', 'char_len_local',
+    'dummy_only_in_internal', 'optional_present', 'dummy_only_in_dimension', 'char_len_local', 'sched_both',
 ]
 
 
@@ -64,10 +66,17 @@ class Case:
         return '\n'.join(t for _, t in self.files)
 
 
+NONCONST = {'y1', 'y2', 'x1', 'a', 'b', 'w', 'v1', 'v2', 'v3', 'k1', 'k2', 'n', 'ia', 'tab', 'i', 'j'}
+
+
+def _names(t):
+    return set(re.findall(r'[a-z][a-z0-9_%]*', t))
+
+
 def _p(t):
     """parenthesise unless obviously atomic"""
     t = t.strip()
-    if t.replace('_', '').replace('%', '').isalnum():
+    if t.replace('_', '').replace('%', '').replace('.', '').isalnum():
         return t
     if t[0].isalpha() and t.endswith(')') and t.count('(') == 1:
         return t
@@ -156,8 +165,11 @@ class CPGen:
                 a, ba = f'mod({a}, 17)', 17
             return f'{_p(a)}*{_p(b)}', ba * bb
         if kind == 'div':
+            # integer division only of an atom by a literal and only as a function argument (isolated from sums and
+            # products: simplify distributes integer quotients, see C08)
             self.features.add('int_div')
-            return f'{_p(a)} / {rng.choice([2, 3, 4, 5])}', ba
+            leaf, lb = rng.choice(self._int_leaves(const))
+            return f'abs({leaf} / {rng.choice([2, 3, 4, 5])})', lb
         if kind == 'mod':
             m = rng.choice([3, 5, 7])
             return f'mod({a}, {m})', m
@@ -167,7 +179,8 @@ class CPGen:
         if kind == 'abs':
             return f'abs({a})', ba
         if kind == 'neg':
-            return f'-{_p(a)}', ba
+            leaf, lb = rng.choice(self._int_leaves(const))
+            return f'(-{leaf})', lb
         if kind == 'pow':
             if ba > 1000:
                 a, ba = f'mod({a}, 13)', 13
@@ -248,6 +261,9 @@ class CPGen:
         a, da = self.re(d - 1, const)
         if kind in ('add', 'sub', 'minmax'):
             b, db = self.re(d - 1, const)
+            if _names(a) & _names(b) & NONCONST:
+                # no input-dependent leaf twice in a sum: real terms cancelling to an *integer* literal (C08) is kept out
+                b, db = self.rlit()
             desc = (max(da[0], db[0]), da[1] + db[1])
             if kind == 'minmax':
                 return f"{rng.choice(['min', 'max'])}({a}, {b})", desc
@@ -261,7 +277,8 @@ class CPGen:
                 desc = (da[0] + db[0], da[1] * db[1])
             return f'{_p(a)}*{_p(b)}', desc
         if kind == 'neg':
-            return f'-{_p(a)}', da
+            leaf, dl = rng.choice(self._real_leaves(const))
+            return f'(-{leaf})', dl
         if kind == 'abs':
             return f'abs({a})', da
         if kind == 'pow':
@@ -270,8 +287,9 @@ class CPGen:
                 return f'abs({a})', da
             return f'{_p(a)}**2', desc
         if kind == 'div':
+            # numerator and denominator can never fold to a literal (simplify raises on literal / non-literal, C08)
             b = self.re_v(d - 1)
-            return f'{_p(a)} / (1.0_8 + abs({b}))', da
+            return f'({self.re_v(d - 1)}) / (1.0_8 + abs({b}))', (0, 1.0)
         if kind == 'conv':
             return f'real({self.ie_b(d - 1, False, 1000)}, 8)', (0, 1.0)
         f = rng.choice(['sin', 'cos', 'tanh', 'sqrt', 'exp'])
@@ -302,7 +320,7 @@ class CPGen:
         if c == 0:
             return f'sin({e})'
         if c == 1:
-            return f'({e}) / (1.0_8 + abs({e}))'
+            return f'tanh({e})'
         if c == 2:
             return f'min(max({e}, -50.0_8), 50.0_8)'
         return f'2.0_8*cos({e})'
@@ -687,9 +705,29 @@ class CPGen:
             s = ['hz1 = 1', 'do i = 1, 4', '  if (k1 + i > -100) cycle', '  hz1 = 2', 'end do', f'oi({T1}) = hz1']
         elif hz == 'real_kind_fold':
             s = ['hzr = 0.1_8', f'orr({R1}) = hzr*3.0_8 + x1', f'orr({R2}) = 1.0_8 / 3.0_8 + hzr']
-        elif hz == 'internal_modifies_host':
-            self.extra_internal += ['subroutine ihz()', '  hz1 = hz1 + k1', 'end subroutine ihz']
-            s = ['hz1 = 3', 'call ihz()', f'oi({T1}) = hz1']
+        elif hz == 'internal_present':
+            self.extra_internal += ['subroutine ihz(q)', '  integer, intent(out) :: q', '  q = k1 + 2', 'end subroutine ihz']
+            s = ['call ihz(hz1)', f'oi({T1}) = hz1']
+        elif hz == 'simp_int_quot_sum':
+            s = [f'oi({T1}) = (k1 + 3) / 2']
+        elif hz == 'simp_int_quot_product':
+            s = [f'oi({T1}) = k2*(k1 / 2)']
+        elif hz == 'simp_int_quot_like_terms':
+            s = [f'oi({T1}) = k1 / 2 + k1 / 2']
+        elif hz == 'simp_real_div_literal':
+            s = [f'orr({R1}) = y1 / 2.0_8']
+        elif hz == 'simp_real_coeff_div_int':
+            s = [f'orr({R1}) = (1.5_8*y1) / 4']
+        elif hz == 'simp_real_cancel_to_int':
+            s = [f'orr({R1}) = sqrt(abs(y1 - (y1 + 4.0_8)))']
+        elif hz == 'simp_neg_product':
+            s = [f'orr({R1}) = -1.0_8 + (-((-y1)*(-2.0_8 + (-2.0_8))))']
+        elif hz == 'simp_cond_int_quot':
+            s = ['if ((k1 + 1) / 2 > 0) then', '  hz1 = 1', 'else', '  hz1 = 2', 'end if', f'oi({T1}) = hz1']
+        elif hz == 'simp_cond_real_literal':
+            s = ['if (y1 / 2.0_8 > 0.1_8) then', '  hz1 = 1', 'else', '  hz1 = 2', 'end if', f'oi({T1}) = hz1']
+        elif hz == 'sched_both':
+            s = []
         elif hz == 'stale_second_pass':
             self.used_helpers.add('hset')
             s = ['call hset(k1, 2, hz1)', f'oi({T1}) = hz1', 'hz1 = 4', f'oi({T2}) = hz1']
@@ -798,7 +836,7 @@ class CPGen:
         hz_lines = self.hazard_snippet(ind) if self.hz else []
         body = body[:pos] + hz_lines + body[pos:]
         final = []
-        slots = [c for c in self.kint] + self.vint + ['merge(1, 0, l1)', 'merge(1, 0, l2)', 'tab(2) + 10*tab(4)']
+        slots = [c for c in self.kint] + self.vint + ['merge(1, 0, l1)', 'merge(1, 0, l2)', 'tab(2) + 10*tab(4)', 'ia(1)']
         for k, s in enumerate(slots[:NOI - 4]):
             final.append(f'{ind}oi({k + 1}) = oi({k + 1}) + {s}')
         for k, s in enumerate(self.kreal + self.vreal):
